@@ -80,6 +80,7 @@ class Env(object):
         # ledger of declarations made through the program (objects, by identity)
         self.declared_constraints = []   # (where, Constraint)
         self.declared_lmis = []          # (where, PSDMatrix or None-if-list, raw spec)
+        self.lmi_raw = []                # (PSDMatrix, matrix as written by the user)
         self.declared_metrics = []
         self.step_constraints = []       # (function, Constraint) observed as list deltas around step calls
         self.results = []                # return values of solve instructions
@@ -524,6 +525,7 @@ class Interp(object):
             env.declared_lmis.append((f, obj))
             env.features.add("function_lmi")
         env.M.append(obj)
+        env.lmi_raw.append((obj, mat))        # the entries exactly as the user wrote them (Expression objects / numbers)
         env.features.add("lmi")
         return obj
 
